@@ -14,6 +14,8 @@
  *   l <n>                           gd_open_limit                             -> "l <ret>"
  *   k <n>                           gd_mplex_lookback                         -> "k"
  *   r                               D->recurse_level (internal.h peek)        -> "r <level>"
+ *   a <P|L|B|M|X> <field> <args>    gd_alter_phase/lincom(1 input)/bit/multiply/mplex  -> "a <ret> <err>"
+ *   C <const> <int>                 gd_put_constant(GD_INT64)                 -> "C <ret> <err>"
  *
  * With -O every output line is followed by " | <name>=<0|1> ..." giving, for every
  * RAW entry, whether file[0] is open after the call (internal.h peek), so that the
@@ -176,6 +178,23 @@ int main(int argc, char **argv)
         const char *fc = (tok[1][0] == '*') ? NULL : tok[1];
         int r = tok[0][0] == 'c' ? gd_raw_close(D, fc) : tok[0][0] == 'f' ? gd_flush(D, fc) : gd_sync(D, fc);
         printf("%c %d %d", tok[0][0], r, gd_error(D)); eol();
+        break; }
+      case 'a': {   /* a <P|L|B|M|X> <field> args..: gd_alter_phase/lincom/bit/multiply/mplex */
+        int r = -1;
+        switch (tok[1][0]) {
+          case 'P': r = gd_alter_phase(D, tok[2], tok[3], strtoll(tok[4], NULL, 10)); break;
+          case 'L': { const char *in[1]; double m[1], b[1]; in[0] = tok[3]; m[0] = strtod(tok[4], NULL); b[0] = strtod(tok[5], NULL);
+                      r = gd_alter_lincom(D, tok[2], 1, in, m, b); break; }
+          case 'B': r = gd_alter_bit(D, tok[2], tok[3], atoi(tok[4]), atoi(tok[5])); break;
+          case 'M': r = gd_alter_multiply(D, tok[2], tok[3], tok[4]); break;
+          case 'X': r = gd_alter_mplex(D, tok[2], tok[3], tok[4], atoi(tok[5]), atoi(tok[6])); break;
+        }
+        printf("a %d %d", r, gd_error(D)); eol();
+        break; }
+      case 'C': {   /* C <const field> <integer>: gd_put_constant */
+        int64_t v = strtoll(tok[2], NULL, 10);
+        int r = gd_put_constant(D, tok[1], GD_INT64, &v);
+        printf("C %d %d", r, gd_error(D)); eol();
         break; }
       case 'l': { long r = gd_open_limit(D, atol(tok[1])); printf("l %ld", r); eol(); break; }
       case 'k': gd_mplex_lookback(D, atoi(tok[1])); printf("k"); eol(); break;
